@@ -20,14 +20,25 @@
 (*                     this observation: "pos" = [0,N) (ANGLE_0_2PI),      *)
 (*                     "sym" = (-N/2,N/2] (ANGLE_NEG_PI_PI)                *)
 (*   the position of the observation in the stack.                         *)
+(* rg = 1 marks a range / range-rate measurement several km (km/s) off the *)
+(* prediction (an innovation larger than pi in magnitude).                 *)
 (* Actions: PoseTuning, PoseKinds, PosePlacement, PoseSubs (environment);  *)
 (*   AddTurns(i,c,k), MoveSeam(r), Reexpress(i,c), Remodel(i), Permute(p)  *)
-(*   (the group); Update (the filter).                                     *)
-(* The abstract posterior is a function of the MULTISET of observations    *)
-(* with angles reduced mod N (Posterior).  Property formulas:              *)
+(*   (the group); Update (the filter); Continue (the SAME filter instance  *)
+(*   goes on to a further update from the same prior: hist records the     *)
+(*   stacks it has already processed); Relayout(ks) (the environment       *)
+(*   hands the instance a stack of equal total dimension but a different   *)
+(*   component layout).                                                    *)
+(* The abstract posterior is a function of the current prior and the       *)
+(* MULTISET of observations with angles reduced mod N (Posterior) - not of *)
+(* representation, order, or of what the instance processed before (hist   *)
+(* is a ghost: Update never reads it).  Property formulas:                 *)
 (*   GroupKeepsPosterior (action property), PosteriorIsBasePosterior,      *)
-(*   InnovationInRange, InnovationIsAngleResidual.                         *)
-(* Every "updated" state is one implementation test (Emit).                *)
+(*   PosteriorIgnoresHistory (action property), InnovationInRange,         *)
+(*   InnovationIsAngleResidual.                                            *)
+(* Every "updated" state is one implementation test (Emit): the driver     *)
+(* feeds hist and then the stack to ONE real filter instance and compares  *)
+(* with a fresh instance fed the stack alone and with the canonical stack. *)
 (***************************************************************************)
 EXTENDS AngleOps, TLC, Json
 
@@ -36,11 +47,14 @@ CONSTANTS Tunings,        \* labels of sigma-point weightings (interpreted by th
           Placements,     \* set of 4-tuples of <<tick, sub>>
           SubPatterns,    \* set of 4-tuples over {-1, 0, 1}
           TurnVals,       \* turn offsets for AddTurns
-          MaxGroup,       \* number of group actions per behaviour
-          PermSet         \* permutations offered to Permute ("all" or "some")
+          MaxGroup,       \* number of group actions between two updates
+          PermSet,        \* permutations offered to Permute ("all" or "some")
+          RangePatterns,  \* set of 4-tuples over {0, 1}: 1 = range innovation of several km
+          MaxHist,        \* further updates of the same filter instance (0 = single update)
+          ContinueFrom    \* "base": only after updating with an untouched stack; "any"
 
-VARIABLES pc, tuning, stack, g, post, innov
-vars == <<pc, tuning, stack, g, post, innov>>
+VARIABLES pc, tuning, stack, g, post, innov, hist
+vars == <<pc, tuning, stack, g, post, innov, hist>>
 
 NObs == 4
 Idx  == 1..NObs
@@ -57,7 +71,7 @@ ElTick == <<2, 3, -2, 1>>       \* the third sensor looks down on the target
 
 CanonRep == [k |-> 0, s |-> "pos"]
 MkObs(id, kn, pl, u) ==
-  [id |-> id, kind |-> kn, pv |-> pl[1], ps |-> pl[2], pe |-> ElTick[id], u |-> u, mseam |-> "pos",
+  [id |-> id, kind |-> kn, pv |-> pl[1], ps |-> pl[2], pe |-> ElTick[id], u |-> u, rg |-> 0, mseam |-> "pos",
    reps |-> [c \in DOMAIN KindComps(kn) |-> CanonRep]]
 Comps(o) == KindComps(o.kind)
 AngTick(o, c) == IF Comps(o)[c] = "az" THEN o.pv ELSE o.pe
@@ -66,7 +80,7 @@ InputVal(o, c) == Raw(AngTick(o, c), o.reps[c].k, o.reps[c].s)
 ModelVal(o, c) == IF Comps(o)[c] = "az" THEN Raw(o.pv, 0, o.mseam) ELSE Raw(o.pe, 0, "sym")
 
 \* ---- the abstract posterior: a function of the multiset, angles mod N ----
-Canon(o) == [id |-> o.id, kind |-> o.kind, ps |-> o.ps, u |-> o.u,
+Canon(o) == [id |-> o.id, kind |-> o.kind, ps |-> o.ps, u |-> o.u, rg |-> o.rg,
              vals |-> [c \in DOMAIN Comps(o) |-> IF IsAng(Comps(o)[c]) THEN Wrap2Pi(InputVal(o, c)) ELSE 0]]
 Posterior(st) == LET S == {Canon(st[i]) : i \in DOMAIN st}
                  IN [x \in S |-> Cardinality({i \in DOMAIN st : Canon(st[i]) = x})]
@@ -82,51 +96,67 @@ AllPerms  == {p \in [Idx -> Idx] : Injective(p)} \ {[i \in Idx |-> i]}
 SomePerms == {<<2, 1, 3, 4>>, <<4, 3, 2, 1>>, <<2, 3, 4, 1>>}
 Perms == IF PermSet = "all" THEN AllPerms ELSE SomePerms
 
-Init == /\ pc = "start" /\ tuning = "none" /\ stack = <<>> /\ g = 0 /\ post = <<>> /\ innov = <<>>
+Init == /\ pc = "start" /\ tuning = "none" /\ stack = <<>> /\ g = 0 /\ post = <<>> /\ innov = <<>> /\ hist = <<>>
 
 PoseTuning == /\ pc = "start" /\ \E t \in Tunings : tuning' = t
-              /\ pc' = "tuned" /\ UNCHANGED <<stack, g, post, innov>>
+              /\ pc' = "tuned" /\ UNCHANGED <<stack, g, post, innov, hist>>
 PoseKinds == /\ pc = "tuned"
              /\ \E ks \in KindSets : stack' = [i \in Idx |-> MkObs(i, ks[i], <<0, 0>>, 0)]
-             /\ pc' = "kinds" /\ UNCHANGED <<tuning, g, post, innov>>
+             /\ pc' = "kinds" /\ UNCHANGED <<tuning, g, post, innov, hist>>
 PosePlacement == /\ pc = "kinds"
                  /\ \E pl \in Placements : stack' = [i \in Idx |-> [stack[i] EXCEPT !.pv = pl[i][1], !.ps = pl[i][2]]]
-                 /\ pc' = "placed" /\ UNCHANGED <<tuning, g, post, innov>>
+                 /\ pc' = "placed" /\ UNCHANGED <<tuning, g, post, innov, hist>>
 PoseSubs == /\ pc = "placed"
-            /\ \E us \in SubPatterns : stack' = [i \in Idx |-> [stack[i] EXCEPT !.u = us[i]]]
-            /\ pc' = "posed" /\ UNCHANGED <<tuning, g, post, innov>>
+            /\ \E us \in SubPatterns, rs \in RangePatterns :
+                  stack' = [i \in Idx |-> [stack[i] EXCEPT !.u = us[i], !.rg = rs[i]]]
+            /\ pc' = "posed" /\ UNCHANGED <<tuning, g, post, innov, hist>>
 
 CanAct == pc = "posed" /\ g < MaxGroup
 AddTurns(i, c, k) == /\ CanAct /\ i \in Idx /\ c \in DOMAIN Comps(stack[i]) /\ IsAng(Comps(stack[i])[c])
                      /\ stack[i].reps[c].k = 0 /\ k # 0
                      /\ stack' = [stack EXCEPT ![i].reps[c].k = k]
-                     /\ g' = g + 1 /\ UNCHANGED <<pc, tuning, post, innov>>
+                     /\ g' = g + 1 /\ UNCHANGED <<pc, tuning, post, innov, hist>>
 \* every azimuth/elevation of the stack, and the filter's own azimuth functions, on branch r
 MoveSeam(r) == /\ CanAct
                /\ stack' = [i \in Idx |-> [stack[i] EXCEPT !.mseam = r,
                                !.reps = [c \in DOMAIN Comps(stack[i]) |->
                                            IF IsAng(Comps(stack[i])[c]) THEN [@[c] EXCEPT !.s = r] ELSE @[c]]]]
                /\ stack' # stack
-               /\ g' = g + 1 /\ UNCHANGED <<pc, tuning, post, innov>>
+               /\ g' = g + 1 /\ UNCHANGED <<pc, tuning, post, innov, hist>>
 \* one measured value on the other branch (the filter keeps its convention)
 Reexpress(i, c) == /\ CanAct /\ i \in Idx /\ c \in DOMAIN Comps(stack[i]) /\ IsAng(Comps(stack[i])[c])
                    /\ stack' = [stack EXCEPT ![i].reps[c].s = Other(@)]
-                   /\ g' = g + 1 /\ UNCHANGED <<pc, tuning, post, innov>>
+                   /\ g' = g + 1 /\ UNCHANGED <<pc, tuning, post, innov, hist>>
 \* the filter's azimuth function of one observation on the other branch (the value keeps its own)
 Remodel(i) == /\ CanAct /\ i \in Idx /\ \E c \in DOMAIN Comps(stack[i]) : Comps(stack[i])[c] = "az"
               /\ stack' = [stack EXCEPT ![i].mseam = Other(@)]
-              /\ g' = g + 1 /\ UNCHANGED <<pc, tuning, post, innov>>
+              /\ g' = g + 1 /\ UNCHANGED <<pc, tuning, post, innov, hist>>
 Permute(p) == /\ CanAct /\ stack' = [j \in Idx |-> stack[p[j]]]
-              /\ g' = g + 1 /\ UNCHANGED <<pc, tuning, post, innov>>
+              /\ g' = g + 1 /\ UNCHANGED <<pc, tuning, post, innov, hist>>
 Update == /\ pc = "posed"
           /\ post' = Posterior(stack) /\ innov' = [i \in Idx |-> InnovOf(stack[i])]
-          /\ pc' = "updated" /\ UNCHANGED <<tuning, stack, g>>
+          /\ pc' = "updated" /\ UNCHANGED <<tuning, stack, g, hist>>
+\* the same filter instance is used again (same prior): what it has processed is remembered
+Continue == /\ pc = "updated" /\ Len(hist) < MaxHist
+            /\ (ContinueFrom = "base" => stack = BaseOf(stack))
+            /\ hist' = Append(hist, stack) /\ g' = 0 /\ pc' = "posed"
+            /\ UNCHANGED <<tuning, stack, post, innov>>
+\* between two updates the environment may hand over other kinds of observations by the same
+\* sensors: equal total dimension, different component layout
+Dim(ks) == Len(KindComps(ks[1])) + Len(KindComps(ks[2])) + Len(KindComps(ks[3])) + Len(KindComps(ks[4]))
+KindsOf(st) == [j \in Idx |-> (CHOOSE x \in {st[i] : i \in DOMAIN st} : x.id = j).kind]
+Relayout(ks) == /\ CanAct /\ hist # <<>>
+                /\ ks # KindsOf(stack) /\ Dim(ks) = Dim(KindsOf(stack))
+                /\ stack' = [i \in Idx |-> [stack[i] EXCEPT !.kind = ks[stack[i].id], !.mseam = "pos",
+                                                !.reps = [c \in DOMAIN KindComps(ks[stack[i].id]) |-> CanonRep]]]
+                /\ g' = g + 1 /\ UNCHANGED <<pc, tuning, post, innov, hist>>
 
 Group == \/ \E i \in Idx, c \in 1..4 : Reexpress(i, c) \/ \E k \in TurnVals : AddTurns(i, c, k)
          \/ \E r \in Branches : MoveSeam(r)
          \/ \E i \in Idx : Remodel(i)
          \/ \E p \in Perms : Permute(p)
-Next == PoseTuning \/ PoseKinds \/ PosePlacement \/ PoseSubs \/ Group \/ Update
+Next == PoseTuning \/ PoseKinds \/ PosePlacement \/ PoseSubs \/ Group \/ Update \/ Continue
+        \/ \E ks \in KindSets : Relayout(ks)
 Spec == Init /\ [][Next]_vars
 
 \* ---- C16, filter level ----------------------------------------------------
@@ -134,6 +164,10 @@ Spec == Init /\ [][Next]_vars
 GroupKeepsPosterior == [][Group => Posterior(stack') = Posterior(stack)]_vars
 \* so whatever was done to the representation, the update sees the posterior of the canonical stack
 PosteriorIsBasePosterior == pc = "updated" => post = Posterior(BaseOf(stack))
+\* what the instance processed before never enters: an update changes post/innov as a function of
+\* the stack alone, and going on to a further update leaves them untouched
+PosteriorIgnoresHistory == [][/\ (Update => post' = Posterior(stack) /\ hist' = hist)
+                              /\ (Continue => post' = post /\ stack' = stack)]_vars
 \* angular innovations lie in (-N/2, N/2] ...
 InnovationInRange == pc = "updated" =>
    \A i \in Idx : \A c \in DOMAIN innov[i] : InNegPiPi(innov[i][c])
@@ -145,7 +179,7 @@ InnovationIsAngleResidual == pc = "updated" =>
 StackIsPermutation == pc \in {"posed", "updated"} => {stack[i].id : i \in Idx} = Idx
 
 Emit == pc = "updated" =>
-   PrintT("OBS " \o ToJson([tuning |-> tuning, g |-> g, stack |-> stack]))
+   PrintT("OBS " \o ToJson([tuning |-> tuning, g |-> g, stack |-> stack, hist |-> hist]))
 
 \* ---- named constant values for cfg files ---------------------------------
 KindSetsQuick    == {<<"azel", "radar", "rngaz", "elrr">>, <<"radar", "az", "rng", "elaz">>}
@@ -168,6 +202,15 @@ PlacementsMid == PlacementsQuick \cup
 SubsQuick    == {<<1, -1, 0, 1>>}
 SubsMid      == SubsQuick \cup {<<-1, 1, -1, 0>>}
 SubsThorough == SubsQuick \cup {<<-1, 1, -1, 0>>, <<0, 0, 1, -1>>, <<-1, -1, 1, 1>>}
+\* equal total dimension (10), different layouts
+KindSetsSeq == {<<"azel", "radar", "rngaz", "elrr">>, <<"radar", "azel", "elrr", "rngaz">>,
+                <<"rngaz", "elrr", "radar", "azel">>}
+KindSetsSim == KindSetsThorough \cup KindSetsSeq
+PlacementsSeq == {<< <<0, 0>>, <<12, 0>>, <<0, -1>>, <<0, 1>> >>}
+RangeNear  == {<<0, 0, 0, 0>>}
+RangeMixed == {<<1, 0, 1, 1>>}
+RangeAll   == RangeNear \cup RangeMixed \cup {<<0, 1, 0, 1>>}
+TurnsOne      == {-3}
 TurnsQuick    == {-3, 1}
 TurnsThorough == {-3, -1, 1, 2}
 =============================================================================
